@@ -514,9 +514,150 @@ def r4_no_lost_status(repo=None):
     return r
 
 
+IO_EXTERNAL = ("mkdir", "_mkdir", "rename", "remove", "unlink", "rmdir", "fopen", "fclose", "fwrite", "fflush", "fsync", "open", "close", "write")
+
+
+def r5_failure_flag_means_io_failure(repo=None, rid="C10.R5"):
+    """The sticky flag has two consequences: every later write is refused, and at close the open file is *removed* instead of
+    published.  Both are right after an I/O failure ('a file is never published with content that is known to be damaged') and
+    wrong after a mere refusal ('a write that would need to alter a finalized file is rejected and the writer remains usable').
+    Who-may-set rule with provenance: every store of a non-zero value into has_failure is controlled by a condition that reads an
+    I/O status - the result of an HDF5 / file-system call, a local or field assigned from one, the result of a library function
+    whose every non-zero return is itself so controlled (computed recursively), or a parameter that receives such a value at
+    every call site."""
+    r = Rule(rid, "has_failure is set only where the failure of an HDF5 / file-system call was observed")
+    tu = cfront.lib(repo)
+
+    def is_ext_io(c):
+        return c.kind == "CallExpr" and c.callee and c.callee not in tu.functions and (c.callee.startswith("H5") or c.callee in IO_EXTERNAL)
+    memo = {}
+
+    def io_vars(fn):
+        out = set()
+        for path, node, rhs, kind in clib.stores(fn):
+            if path and kind == "=" and rhs is not None and any(is_ext_io(x) or (x.kind == "CallExpr" and x.callee in tu.functions and io_step(x.callee))
+                                                               for x in rhs.walk()):
+                out.add(path)
+        for d in fn.find("VarDecl"):
+            if d.children and any(is_ext_io(x) for x in d.children[-1].walk()):
+                out.add(d.name)
+        return out
+
+    def cond_is_io(cond, fn, depth=0):
+        iv = io_vars(fn)
+        params = [p_.name for p_ in fn.children if p_.kind == "ParmVarDecl"]
+        for x in cond.walk():
+            if is_ext_io(x):
+                return True
+            if x.kind == "CallExpr" and x.callee in tu.functions and io_step(x.callee, depth + 1):
+                return True
+            p_ = x.path() if x.kind in ("DeclRefExpr", "MemberExpr") else None
+            if p_ and p_ in iv:
+                return True
+            if p_ in params and depth < 3 and not any(path == p_ for path, nd, rhs, k in clib.stores(fn)):
+                # a parameter: an I/O status at every call site
+                idx = params.index(p_)
+                sites = [(cf, c) for cf in tu.functions.values() for c in cf.calls((fn.name,))]
+                if sites and all(idx < len(c.args) and cond_is_io(c.args[idx], cf, depth + 1) for cf, c in sites):
+                    return True
+        return False
+
+    def io_step(name, depth=0):
+        """every non-zero return of library function `name` is controlled by (or is) an I/O status"""
+        if name in memo:
+            return memo[name]
+        memo[name] = False
+        if depth > 3:
+            return False
+        fn = tu.functions[name]
+        rets = [x for x in fn.find("ReturnStmt") if x.children and x.children[0].intval() != 0]
+        ok = bool(rets)
+        iv = None
+        for rt in rets:
+            v = rt.children[0]
+            if any(is_ext_io(x) for x in v.walk()):
+                continue
+            iv = io_vars(fn) if iv is None else iv
+            if (v.strip(casts=True).path() or "") in iv:
+                continue
+            good = False
+            a = rt.parent
+            while a is not None and a is not fn:
+                if a.kind == "IfStmt" and cond_is_io(a.children[0], fn, depth + 1):
+                    good = True
+                    break
+                a = a.parent
+            if not good:
+                ok = False
+                break
+        memo[name] = ok
+        return ok
+    n = 0
+    for fname, fn in tu.functions.items():
+        for path, node, rhs, kind in clib.stores(fn):
+            if not path or not path.endswith("->has_failure") or rhs is None or kind != "=" or rhs.intval() == 0:
+                continue
+            n += 1
+            conds = []
+
+            def fail_side(e):
+                """the branch label on which the status tested by e is a failure: `x < 0`, `x != 0`, `x` -> T; `x == 0`, `x >= 0`, `!x` -> F"""
+                t = e.strip(casts=True)
+                if t.kind == "UnaryOperator" and t.opcode == "!":
+                    fs = fail_side(t.children[0])
+                    return {"T": "F", "F": "T"}.get(fs)
+                if t.kind == "BinaryOperator" and t.opcode == "&&":
+                    return "T"
+                if t.kind == "BinaryOperator" and t.opcode in ("<", "!=", ">") and t.children[1].intval() == 0:
+                    return "T"
+                if t.kind == "BinaryOperator" and t.opcode in ("==", ">=") and t.children[1].intval() == 0:
+                    return "F"
+                if t.kind == "BinaryOperator" and t.opcode == "==" and t.children[1].intval() is not None and t.children[1].intval() < 0:
+                    return "T"
+                if t.kind in ("CallExpr", "DeclRefExpr", "MemberExpr"):
+                    return "T"
+                return None
+            a, ch_ = node.parent, node
+            while a is not None and a is not fn:
+                if a.kind == "IfStmt":
+                    side = "T" if a.children[1].begin <= node.begin <= a.children[1].end else "F"
+                    if fail_side(a.children[0]) == side:
+                        conds.append(a.children[0])
+                    else:
+                        conds.append(None)          # an enclosing test, but the store is not on its failure side
+                a = a.parent
+            # control dependence on the CFG as well (an inlined static helper turns `if (helper(...) < 0)` into jumps)
+            g = _cfg.build_c(fn)
+            sn = clib.node_of(g, node)
+            if sn is not None:
+                for cn in g.nodes:
+                    if cn.kind != "cond" or cn.ast is None:
+                        continue
+                    rt = g.reach([b for b, l in g.succ[cn.id] if l == "T"], avoid=[cn.id], skip_labels=("back",))
+                    rf = g.reach([b for b, l in g.succ[cn.id] if l == "F"], avoid=[cn.id], skip_labels=("back",))
+                    if (sn.id in rt) != (sn.id in rf) and not any(cn.ast is c_ for c_ in conds):
+                        side = "T" if sn.id in rt else "F"
+                        conds.append(cn.ast if fail_side(cn.ast) == side else None)
+            site = "%s:%s %s `%s`" % (LIB, node.line, fname, node.nsrc[:50])
+            had_any = bool(conds)
+            conds = [c for c in conds if c is not None]
+            if any(cond_is_io(c, fn) for c in conds):
+                r.ok(site, "on the failure side of a test of an I/O status (`%s`)" % [c for c in conds if cond_is_io(c, fn)][0].nsrc[:50])
+            elif not had_any:
+                raise AnalysisError("%s: has_failure is set unconditionally at line %s: not decided" % (fname, node.line))
+            else:
+                r.violation(LIB, fname, "%s under `%s`" % (node.nsrc[:40], conds[0].nsrc[:50] if conds else "the success side of the tests around it"), "the sticky failure flag is set where no I/O call "
+                            "was seen to fail (a refusal, a count): every later write is refused and at close the open file - intact data "
+                            "that was accepted - is removed instead of published", line=node.line)
+    if n < 5:
+        raise AnalysisError("stores of has_failure: %d found, 11 confirmed on the reference tree" % n)
+    r.guard(8)
+    return r
+
+
 def rules(repo=None):
     return [lambda: r1_flush_status_gates_publication(repo), lambda: r2_sticky_failure(repo),
-            lambda: r3_failed_file_removed(repo), lambda: r4_no_lost_status(repo)]
+            lambda: r3_failed_file_removed(repo), lambda: r4_no_lost_status(repo), lambda: r5_failure_flag_means_io_failure(repo)]
 
 
 EXPLANATION = (
@@ -529,7 +670,8 @@ EXPLANATION = (
     'has its status discarded or overwritten before a test (two named allow-list entries). R1 also: the failure side of '
     'the H5Fcreate of drf_properties.h5 reaches its error return only through remove / unlink of that path (guarded only '
     "by 'did the name exist before'): a failed create leaves no empty file behind. Decides the error discipline on all "
-    'paths, NOT what HDF5 does internally after a failed write.')
+    'paths, NOT what HDF5 does internally after a failed write. R5: who-may-set has_failure with provenance - every non-'
+    'zero store is controlled by a test of an I/O status (see C11.R9).')
 TECHNIQUE = ('clang JSON AST; status-usage classification of every I/O call; CFG must-pass of failure branches before the publish decision')
 ASSUMPTIONS = ["HDF5 flushes buffered data at H5Dclose/H5Fclose and reports failure through their return value",
                "attribute/dataspace/property-list calls do no file I/O (their failure surfaces at the next flush point)",
